@@ -124,11 +124,31 @@ def generate(info):  # pylint: disable=too-many-locals,too-many-statements
             body = handler_body(t, p['itf']['fqn'], ev, 'user', f'std::string("{p["name"]}")', own)
             w(f'  if (skip != "{key}") sh->{info.accessor(p)}.port.{own}.{ev["name"]} = {body};')
     w('}')
+    # client identifiers travel through the script in a blank-free notation: ~s blank, ~t tab, ~r CR
+    w('static std::string unesc(const std::string& s) { std::string o; for (size_t i = 0; i < s.size(); ++i) { '
+      'if (s[i] == \'~\' && i + 1 < s.size() && (s[i + 1] == \'s\' || s[i + 1] == \'t\' || s[i + 1] == \'r\')) '
+      '{ o += s[i + 1] == \'s\' ? \' \' : (s[i + 1] == \'t\' ? \'\\t\' : \'\\r\'); ++i; } else o += s[i]; } return o; }')
+    # fetch the enclosures of all clients first, bind their out-events afterwards
+    w('static void register_clients_fetch_first(const std::vector<std::string>& ids) {')
+    for p in info.ports:
+        if not info.is_mc(p):
+            continue
+        w(f'  using Enc = decltype(sh->ProvidesMultiClient{cap(p["name"])}(std::string()));')
+        w('  std::vector<Enc> encs;')
+        w(f'  for (auto& id : ids) encs.push_back(sh->ProvidesMultiClient{cap(p["name"])}(unesc(id)));')
+        w('  for (size_t i = 0; i < ids.size(); ++i) { const std::string id = ids[i]; Enc& prt = encs[i];')
+        for ev in info.events(p, 'out'):
+            body = handler_body(t, p['itf']['fqn'], ev, 'user',
+                                f'(std::string("{p["name"]}@") + id)', 'out')
+            w(f'    prt.port.out.{ev["name"]} = {body};')
+        w('  }')
+    w('  (void)ids;')
+    w('}')
     w('static void register_client(const std::string& id, const std::string& skip) {')
     for p in info.ports:
         if not info.is_mc(p):
             continue
-        w(f'  auto prt = sh->ProvidesMultiClient{cap(p["name"])}(id);')
+        w(f'  auto prt = sh->ProvidesMultiClient{cap(p["name"])}(unesc(id));')
         for ev in info.events(p, 'out'):
             key = f'{ev["name"]}'
             body = handler_body(t, p['itf']['fqn'], ev, 'user',
@@ -146,7 +166,7 @@ def generate(info):  # pylint: disable=too-many-locals,too-many-statements
         if p['dir'] == 'provides':
             for ev in info.events(p, 'in'):
                 if info.is_mc(p):
-                    tgt = f'sh->ProvidesMultiClient{cap(nm)}(client).port.in.{ev["name"]}'
+                    tgt = f'sh->ProvidesMultiClient{cap(nm)}(unesc(client)).port.in.{ev["name"]}'
                     code = call_code(info, p, ev, tgt, 'user', 'in', f'(std::string("{nm}@") + client)')
                     w(f'  if (kind == "mccall" && port == "{nm}" && ev == "{ev["name"]}") {{ {code} return; }}')
                 else:
@@ -234,6 +254,9 @@ def generate(info):  # pylint: disable=too-many-locals,too-many-statements
     w('    else if (cmd == "client") { std::string id, skip; is >> id >> skip; '
       'try { register_client(id, skip); vf::note("client-ok", "\\"id\\":\\"" + id + "\\""); } '
       'catch (const std::exception& e) { vf::note("client-threw", "\\"id\\":\\"" + id + "\\",\\"msg\\":\\"" + vf::esc(e.what()) + "\\""); } }')
+    w('    else if (cmd == "clientsff") { std::vector<std::string> ids; std::string id; while (is >> id) ids.push_back(id); '
+      'try { register_clients_fetch_first(ids); for (auto& i : ids) vf::note("client-ok", "\\"id\\":\\"" + vf::esc(i) + "\\""); } '
+      'catch (const std::exception& e) { vf::note("client-threw", "\\"id\\":\\"*\\",\\"msg\\":\\"" + vf::esc(e.what()) + "\\""); } }')
     w('    else if (cmd == "final") { int wp = 0; is >> wp; try { if (wp) sh->FinalConstruct(&parent_meta); '
       'else sh->FinalConstruct(); vf::note("final-ok", std::string("\\"parent_set\\":") + '
       '((comp()->dzn_meta.parent == (wp ? &parent_meta : nullptr)) ? "true" : "false")); } '
